@@ -31,7 +31,8 @@ func harnessOwned(t reflect.Type) bool {
 	for t.Kind() == reflect.Pointer {
 		t = t.Elem()
 	}
-	return strings.HasPrefix(t.PkgPath(), "verifsim/")
+	// the instrumented generated packages live under verifsim/gen/: those are the code under test, not the harness
+	return strings.HasPrefix(t.PkgPath(), "verifsim/") && !strings.HasPrefix(t.PkgPath(), "verifsim/gen/")
 }
 
 func (hs *hasher) walk(v reflect.Value, d int) {
@@ -136,6 +137,9 @@ func (hs *hasher) walk(v reflect.Value, d int) {
 			hs.walk(v.MapIndex(idx[k]), d+1)
 		}
 	case reflect.Struct:
+		if pp := v.Type().PkgPath(); pp == "sync" || pp == "sync/atomic" {
+			return // the internal state of a lock or atomic is not data: acquiring a mutex is not a write to shared state
+		}
 		for i := 0; i < v.NumField(); i++ {
 			hs.walk(v.Field(i), d+1)
 		}
